@@ -170,8 +170,12 @@ func inject(s string) []injected {
 			add("string-instead-of-terminator", string(rs[:o])+" \"z\n z\""+string(rs[o:]), t.Line, t.Col+1)
 			add("string-instead-of-terminator", string(rs[:o])+" 'z\n\tz' "+string(rs[o:]), t.Line, t.Col+1)
 			add("concatenated-string-instead-of-terminator", string(rs[:o])+" \"z\" +\n 'y'\n+ \"x\" "+string(rs[o:]), t.Line, t.Col+1)
-			add2("string-with-bad-escape-instead-of-terminator", string(rs[:o])+" \"z\\q\" "+string(rs[o:]), t.Line, t.Col+3, t.Line, t.Col+1)
-			add2("string-with-bad-escape-instead-of-terminator", string(rs[:o])+" \"z\n  \\qz\" "+string(rs[o:]), t.Line+1, 3, t.Line, t.Col+1)
+			// (not behind the argument of a pattern statement: the reader looks ahead for a + while it
+			// still reads escapes the pattern way, so the escape is not an error of its own there)
+			if toks[ti-2].Text != "pattern" {
+				add2("string-with-bad-escape-instead-of-terminator", string(rs[:o])+" \"z\\q\" "+string(rs[o:]), t.Line, t.Col+3, t.Line, t.Col+1)
+				add2("string-with-bad-escape-instead-of-terminator", string(rs[:o])+" \"z\n  \\qz\" "+string(rs[o:]), t.Line+1, 3, t.Line, t.Col+1)
+			}
 		}
 		if t.Kind == 1 && t.Double && !(ti > 0 && toks[ti-1].Kind == 0 && toks[ti-1].Text == "pattern") {
 			// 4. invalid escape right after the opening quote (not in the argument of a pattern
